@@ -263,7 +263,7 @@ func cmdCheck(args []string) int {
 			if !*writeBaseline {
 				failing = append(failing, failRec{r, o})
 			} else if *verbose {
-				fmt.Printf("NOT-DISCHARGED %s %s [%s] %s\n", o.Kind, o.Name, o.Answer, o.Pos)
+				fmt.Printf("NOT-DISCHARGED %s %s [%s] %s %s\n", o.Kind, o.Name, o.Answer, o.Pos, o.Desc)
 			}
 		}
 	}
